@@ -117,6 +117,13 @@ PrintedSet(printed) ==
 \* after solving: the profile with every action at or below the threshold removed is printed iff its
 \* regret is STRICTLY lower
 Clipped(prof, c) == [p \in 1..2 |-> [i \in DOMAIN prof[p] |-> TruncInfo(prof[p][i], [t |-> "q", v |-> c])]]
+\* a probability that EQUALS the threshold although neither is a binary fraction (1/9 against 1/9): in floating point
+\* the two are rounded numbers an ulp apart or not, so which side of `>` the action falls on is not decided by the
+\* exact model (for binary fractions - 1/4 against 1/4 - it is: both are exact)
+RECURSIVE IsPow2(_)
+IsPow2(d) == d = 1 \/ (d > 1 /\ d % 2 = 0 /\ IsPow2(d \div 2))
+ClipTie(prof, c) == /\ ~IsPoison(c) /\ ~IsPow2(c[2])
+                    /\ \E p \in 1..2 : \E i \in DOMAIN prof[p] : \E j \in 1..Len(prof[p][i]) : prof[p][i][j] = c
 ClipChoice(t, prof, c) ==
   LET cl == Clipped(prof, c)
       e == Evaluate(t, WeightProfile(prof))
